@@ -118,6 +118,47 @@ type receiverInfo struct {
 }
 
 // extractReceiverInfo extracts receiver information from a method declaration
+// fieldHolderType returns the type of the value that holds the field selected by x.f.
+// Normally that is the type of x. If f is promoted through embedded fields
+// (w.f where w embeds a struct that declares f) and the type of w is not itself
+// @immutable, it is the type of the embedded value the field belongs to:
+// embedding an @immutable struct must not make its fields writable
+func (ctx *checkerContext) fieldHolderType(selector *ast.SelectorExpr) types.Type {
+	outer := ctx.pass.TypesInfo.TypeOf(selector.X)
+	sel := ctx.pass.TypesInfo.Selections[selector]
+	if sel == nil || sel.Kind() != types.FieldVal || len(sel.Index()) < 2 || ctx.isImmutableType(outer) {
+		return outer
+	}
+	t := sel.Recv()
+	path := sel.Index()
+	for _, i := range path[:len(path)-1] {
+		if ptr, ok := types.Unalias(t).(*types.Pointer); ok {
+			t = ptr.Elem()
+		}
+		st, ok := t.Underlying().(*types.Struct)
+		if !ok || i >= st.NumFields() {
+			return outer
+		}
+		t = st.Field(i).Type()
+	}
+	return t
+}
+
+// isImmutableType reports whether t (or the type t points to) is a defined type annotated @immutable
+func (ctx *checkerContext) isImmutableType(t types.Type) bool {
+	if t == nil {
+		return false
+	}
+	if ptr, ok := types.Unalias(t).(*types.Pointer); ok {
+		t = ptr.Elem()
+	}
+	named, ok := types.Unalias(t).(*types.Named)
+	if !ok || named.Obj().Pkg() == nil {
+		return false
+	}
+	return ctx.immutableTypes.Contains(named.Obj().Pkg().Path(), named.Obj().Name())
+}
+
 func extractReceiverInfo(pass *analysis.Pass, funcDecl *ast.FuncDecl) *receiverInfo {
 	if funcDecl.Recv == nil || len(funcDecl.Recv.List) == 0 {
 		return nil
@@ -187,7 +228,7 @@ func checkFieldAssignment(
 	selector *ast.SelectorExpr,
 ) *ImmutableViolation {
 	// Get type of the receiver (t in t.field)
-	receiverType := ctx.pass.TypesInfo.TypeOf(selector.X)
+	receiverType := ctx.fieldHolderType(selector)
 	if receiverType == nil {
 		return nil
 	}
@@ -242,7 +283,7 @@ func checkIndexAssignment(
 		return nil
 	}
 
-	receiverType := ctx.pass.TypesInfo.TypeOf(selector.X)
+	receiverType := ctx.fieldHolderType(selector)
 	if receiverType == nil {
 		return nil
 	}
@@ -319,7 +360,7 @@ func checkFieldIncDec(
 	node *ast.IncDecStmt,
 	selector *ast.SelectorExpr,
 ) *ImmutableViolation {
-	receiverType := ctx.pass.TypesInfo.TypeOf(selector.X)
+	receiverType := ctx.fieldHolderType(selector)
 	if receiverType == nil {
 		return nil
 	}
@@ -442,7 +483,7 @@ func checkCompoundLHS(
 		return nil
 	}
 
-	receiverType := ctx.pass.TypesInfo.TypeOf(selector.X)
+	receiverType := ctx.fieldHolderType(selector)
 	if receiverType == nil {
 		return nil
 	}
